@@ -55,6 +55,18 @@ CHECKS = {
              '(unfair, empty queue, zero request, notified head); zero-permit fast path exists; tail-only '
              'notification; fair walk touches only the head and leaves it linked.',
         note='Order preservation of LinkedList::remove is assumed (C20).', ref='5-C07'),
+    'C16': dict(
+        technique='trait-solver queries under each unsafe impl\'s own where-clauses (node-erased auto-trait '
+                  'derivation, rustc_private) + rustc accept/reject probe matrix with compiling twins',
+        text='For-all-types bound adequacy: every leaf obligation on a payload/buffer parameter derived from the '
+             'fields of each of the 30 `unsafe impl Send/Sync` (and, for type-erased futures, from every type a '
+             'constructor puts behind the dyn) must be entailed by the impl\'s where-clauses according to rustc\'s '
+             'trait solver; plus !Unpin/NoopLock marker facts and a generated probe matrix (must-compile / '
+             'must-not-compile with E0277) over every public type. Reported D2 and D4 (fixed); D5 is a known '
+             'finding (4 keys).',
+        note='The erasure table (rules/autotrait.py) states what the unsafe impls legitimately vouch for; lock-'
+             'parameter leaves follow the crate\'s documented convention, stricter derivations are observation O2.',
+        ref='5-C16'),
 }
 
 
